@@ -198,3 +198,16 @@ impl Reasoner {
     }
 }
 
+
+// Verification hooks (add-only; compiled only with `--cfg kolibrie_verif`). No behaviour change:
+// public wrappers around the private repair functions for function-level correspondence (C19).
+#[cfg(kolibrie_verif)]
+impl Reasoner {
+    pub fn verif_violates_constraints(&self, facts: &HashSet<Triple>) -> bool {
+        self.violates_constraints(facts)
+    }
+
+    pub fn verif_compute_repairs(&self, facts: &HashSet<Triple>) -> Vec<HashSet<Triple>> {
+        self.compute_repairs(facts)
+    }
+}
